@@ -13,6 +13,7 @@ pub const ASSUMPTIONS: &[&str] = &[
     "the signed count of a library value is centuries*NPC + nanoseconds read from to_parts() (definition in C02)",
     "operands are built with from_parts; a non-canonical operand is C02's failure and skipped here",
     "harness built with overflow-checks=on so that a wrap shows as a panic",
+    "open finding KF-total-ns-sign (* and / by i64 read total_nanoseconds()): a failing case is excluded and counted only if an operand has century field <= -2 with non-zero nanoseconds AND the answer is exactly the one the finding predicts (the operation carried out on centuries*NPC - nanoseconds); any other answer there is a violation",
 ];
 
 fn near_bound(x: i128) -> bool {
@@ -188,10 +189,30 @@ pub fn reads_bad_total_ns(d: Duration) -> bool {
 
 fn muldiv_known(c: &MulDiv) -> Option<&'static str> {
     let a = c.a.lib();
-    if reads_bad_total_ns(a) || reads_bad_total_ns(mk(c.q as i128)) {
-        Some("KF-total-ns-sign")
-    } else {
-        None
+    if !(reads_bad_total_ns(a) || reads_bad_total_ns(mk(c.q as i128))) || !canonical(a) {
+        return None;
+    }
+    // the failure is the known one only if the answer is exactly what the finding predicts: the operation carried
+    // out on total_nanoseconds() as the finding computes it
+    let (ta, tq) = (kf_total_ns(a), kf_total_ns(mk(c.q as i128)));
+    let pred = match c.op {
+        0 | 1 => ta.saturating_mul(tq),
+        _ => {
+            if tq == 0 {
+                return None;
+            }
+            ta.saturating_div(tq)
+        }
+    };
+    let q = c.q;
+    let op = c.op;
+    match guard(move || match op {
+        0 => a * q,
+        1 => q * a,
+        _ => a / q,
+    }) {
+        Ok(r) if canonical(r) && count(r) == clamp(pred) => Some("KF-total-ns-sign"),
+        _ => None,
     }
 }
 
